@@ -494,7 +494,20 @@ func TestVerifC04Histories(t *testing.T) {
 					case 0:
 						e.MountUUID = "zzzzz-nyw5e-999999999999999"
 					case 1, 2:
-						e.MountUUID = cs.uuids[vkPick(t, "emountvol", nvol)]
+						mi := vkPick(t, "emountvol", nvol)
+						e.MountUUID = cs.uuids[mi]
+						// an entry that names a mount usually names a block
+						// that mount holds (keep-balance builds such entries
+						// from the mount's own index)
+						var held []string
+						for _, hh := range cs.hashes {
+							if _, ok := prev[mi].present[hh]; ok {
+								held = append(held, hh)
+							}
+						}
+						if len(held) > 0 && vkPick(t, "eheld", 2) == 0 {
+							e.Locator = held[vkPick(t, "eheldhash", len(held))]
+						}
 					}
 					var stored []int64
 					for i, v := range prev {
